@@ -5,7 +5,7 @@ ID = "C06"
 HARNESS_TEST = "TestC06"
 GEN = "c06"
 COQ_MODEL = ["C06/Check.v", "C06/Paths.v", "Gen/C06Facts.v"]
-COQ_PROOF_DEPS = ["C06/Proofs.v", "C06/ProofsExact.v", "C06/ProofsPaths.v", "C06/ProofsSpell.v"]
+COQ_PROOF_DEPS = ["C06/Proofs.v", "C06/ProofsExact.v", "C06/ProofsPaths.v", "C06/ProofsSpell.v", "C06/ProofsReentry.v"]
 COQ_OBLIG = ["C06/Property.v", "Gen/C06Oblig.v"]
 CASES_HEADER = "Require Import Nib.C06.Model Nib.C06.Spec Nib.C06.Check."
 CASE_TYPE = "case"
@@ -50,6 +50,7 @@ TRUSTED = ["hand-assembled forwarder contract (262 bytes) and returns-false ERC2
 HARNESS_TIMEOUT = {"quick": 600, "thorough": 7200}
 
 CONV = ("convert", "send_to_bank", "send_to_evm")
+WASM = ("wasm_convert", "wasm_create_coin", "wasm_create_erc20", "wasm_bank_send")
 KINDS = {
     "std": ("{| tb_fee := fun _ => 0%Z; tb_sink := Module; tb_heavy := false; tb_false := false; tb_burn := false; tb_pos := false |}",
             10 ** 24),
@@ -115,7 +116,7 @@ def _op(rec, i):
     return _op_of(rec["input"][i], rec["obs"][i]["ok"], _ntok_before(rec, i))
 
 
-def _op_of(op, tx_ok, ntok):
+def _op_of(op, tx_ok, ntok, in_seq=False):
     k = op["k"]
     a, to, t = op.get("a", 0), op.get("to", 0), op.get("t", 0)
     if k == "seq":
@@ -123,12 +124,12 @@ def _op_of(op, tx_ok, ntok):
         if len(subs) != 2:
             return "Framed FBadArgs (SetMeta (DCoin 0%nat))"
         cosmos = all(x["k"] in ("create_coin", "create_erc20", "convert") for x in subs)
-        evm = all(x["k"] in ("send_to_bank", "send_to_evm", "bank_msg_send", "erc20_transfer", "erc20_burn") for x in subs)
+        evm = all(x["k"] in ("send_to_bank", "send_to_evm", "bank_msg_send", "erc20_transfer", "erc20_burn") + WASM for x in subs)
         okc = cosmos and subs[0].get("a") == subs[1].get("a") and subs[0].get("a") in (3, 4)
         oke = evm and all(x.get("a") == 5 for x in subs)
         if not (okc or oke):
             return "Framed FBadArgs (SetMeta (DCoin 0%nat))"
-        return "Seq (%s) (%s)" % (_op_of(subs[0], True, ntok), _op_of(subs[1], True, ntok))
+        return "Seq (%s) (%s)" % (_op_of(subs[0], True, ntok, True), _op_of(subs[1], True, ntok, True))
     if k == "fund":
         base = "Fund %s %s %s" % (_n(a), _den(op.get("d")), _amt(op))
     elif k == "meta":
@@ -173,6 +174,17 @@ def _op_of(op, tx_ok, ntok):
         base = "SendToEvm %s %s %s %s" % (_n(a), _den(op.get("d")), _amt(op), _n(to))
     elif k == "bank_msg_send":
         base = "BankMsgSend %s %s %s %s" % (_n(a), _n(to), _den(op.get("d")), _amt(op))
+    elif k in WASM and (a != 5 or (k != "wasm_create_erc20" and op.get("d") is None) or int(op.get("x") or "0") < 0
+                        or op.get("call_gas")):
+        base = "Framed FBadArgs (SetMeta (DCoin 0%nat))"
+    elif k == "wasm_convert":
+        base = "WasmConvert 7%%nat %s %s %s" % (_den(op.get("d")), _amt(op), _n(to))
+    elif k == "wasm_create_coin":
+        base = "WasmCreateCoin 7%%nat %s" % _den(op.get("d"))
+    elif k == "wasm_create_erc20":
+        base = "WasmCreateErc20 7%%nat %s" % _n(t)
+    elif k == "wasm_bank_send":
+        base = "BankMsgSend 7%%nat %s %s %s" % (_n(to), _den(op.get("d")), _amt(op))
     elif k == "erc20_transfer":
         base = "Erc20Transfer %s %s %s %s" % (_n(a), _n(t), _n(to), _amt(op))
     elif k == "erc20_burn":
@@ -180,6 +192,8 @@ def _op_of(op, tx_ok, ntok):
     else:
         base = "Framed FBadArgs (SetMeta (DCoin 0%nat))"
     fr = op.get("frame") or ""
+    if k in WASM and not fr and not in_seq:
+        base = "Framed FBadArgs (SetMeta (DCoin 0%nat))"
     if fr:
         base = "Framed %s (%s)" % (FRAMES.get(fr, "FBadArgs"), base)
     if op.get("bad_to") and k in ("send_to_bank", "send_to_evm", "bank_msg_send"):
@@ -262,7 +276,12 @@ def nontrivial(rec):
             fee = True
         dirs.setdefault(m["tok"], set()).add("out" if op["k"] == "send_to_bank" else "in")
     both = any(len(v) == 2 for v in dirs.values())
-    return conv >= 2 and (fee or frame or both or _respelled_create(rec))
+    return conv >= 2 and (fee or frame or both or _respelled_create(rec) or _via_wasm(rec))
+
+
+def _via_wasm(rec):
+    """a bridge message or bank send dispatched by a CosmWasm contract through the Wasm precompile, inside the EVM tx"""
+    return any(sub["k"] in WASM for top in rec["input"] for sub in _flat(top))
 
 
 def _name(d):
@@ -298,6 +317,9 @@ def classify(rec):
                 ks.append("spelling:%s/%s:%s" % (sub["k"], d["k"], "accepted" if ob["ok"] else "rejected"))
             if d and d["k"] == "i":
                 ks.append("ibc-voucher:%s" % sub["k"])
+        for sub in _flat(op):
+            if sub["k"] in WASM:
+                ks.append("via-wasm-precompile:%s/%s:%s" % (sub["k"], op.get("frame") or op["k"], "accepted" if ob["ok"] else "rejected"))
         if op.get("bad_to"):
             ks.append("malformed:recipient")
         if op.get("gas"):
